@@ -22,7 +22,7 @@ RULE = (
     "re-pin a gateway; for pairs ending in 2.2 the heartbeat response (the stated exception) is excluded; across 1.x -> 2.x gateway-ready is "
     "excluded and any op that the reference model says refers to an unknown node or child at that point is skipped. Oracle, step by step: "
     "same outcome class, same error attributes (node id / child id, and for unsupported messages the message, not the version text), same "
-    "yielded fields, same multiset of writes (time replies compared without the clock value), same registry snapshot. Non-trivial = the "
+    "yielded fields, same multiset of writes (time replies compared without the clock value), same registry snapshot. Enumerated part: every internal and stream type of the older table x a payload pool x both ack flags on a fixed registry, for all pairs. Non-trivial = the "
     "history touches >= 3 distinct internal types, or a command was parked for a sleeping node; distinct = distinct case JSON."
 )
 ASSUMPTIONS = [
@@ -95,6 +95,30 @@ def _registry(draw) -> dict:
             "heartbeat": 0, "sleeping": draw(st.sampled_from((True, True, False))), "children": children, "reboot": draw(st.sampled_from((False, False, True))),
         }
     return reg
+
+
+ENUM_REGISTRY = {
+    "1": {"node_id": 1, "node_type": 17, "protocol_version": "2.0", "sketch_name": "", "sketch_version": "", "battery_level": 0, "heartbeat": 0, "sleeping": False,
+          "children": {"0": {"child_id": 0, "child_type": 3, "description": "", "values": {"0": "20"}}}, "reboot": True},
+    "2": {"node_id": 2, "node_type": 17, "protocol_version": "2.0", "sketch_name": "", "sketch_version": "", "battery_level": 0, "heartbeat": 0, "sleeping": True,
+          "children": {"0": {"child_id": 0, "child_type": 3, "description": "", "values": {}}}, "reboot": False},
+}
+
+
+def enumerate_cases(tier: str):
+    """Every message type of the older table x a small payload pool x both ack flags, one step each, on a known registry."""
+    payloads = ("", "1", "55", "name", "abc", "100.4", "x;y", "2.0") if tier == "quick" else ("", "1", "55", "name", "abc", "100.4", "x;y", "2.0", "150", "-1", "ü", "7 ")
+    for old, new in PAIRS:
+        cross = old.startswith("1") and new.startswith("2")
+        excluded = {2} | ({22} if new == "2.2" else set()) | ({14} if cross else set())
+        for ack in (0, 1):
+            for payload in payloads:
+                lines = [f"{n};255;3;{ack};{t};{payload}\n" for n in (1, 2) for t in range(0, INTERNAL_MAX[old] + 1) if t not in excluded]
+                lines += [f"1;255;4;{ack};{t};{payload}\n" for t in range(0, 6)]
+                lines += [f"1;0;1;{ack};{t};{payload}\n" for t in (0, 2, 47)] + [f"1;0;2;{ack};{t};{payload}\n" for t in (0, 2)]
+                lines += [f"1;0;0;{ack};{t};{payload}\n" for t in (3, 6)] + [f"3;255;0;{ack};17;{payload}\n", f"4;7;3;{ack};3;{payload}\n"]
+                yield {"pair": [old, new], "metric": bool(ack), "registry": ENUM_REGISTRY,
+                       "ops": [op for line in lines for op in (["rx", line],)] + [["send", [2, 0, 1, 0, 0, "9"], None], ["rx", "1;0;2;0;0;\n"], ["rx", "1;0;1;0;0;5\n"]]}
 
 
 def strategy(tier: str):
